@@ -76,7 +76,12 @@ def chain_cases(draw, tier):
         m = draw(st.integers(-3, 3))
         y = [m * v + 50 for v in x]
     k = draw(st.sampled_from([0, 0, -10, -3, 4, 10])) if fam != 'counter' else 0
-    return {'kind': 'chain', 'family': fam, 'P': [[a, b] for a, b in zip(x, y)], 'k': k}
+    P = [[a, b] for a, b in zip(x, y)]
+    if draw(st.integers(0, 7)) == 0:      # an exactly repeated consecutive sample
+        j = draw(st.integers(0, n - 1))
+        P.insert(j, list(P[j]))
+        fam += '+dup'
+    return {'kind': 'chain', 'family': fam, 'P': P, 'k': k}
 
 
 def oracle_chain(case, rec):
@@ -250,7 +255,11 @@ def long_chain_cases(draw, tier):
         ys = [a * (i - c) * (i - c) + (i * 2654435761 % 97) for i in range(n)]
     else:
         ys = [(i * 2654435761) % 1000 for i in range(n)]
-    return {'kind': 'chain', 'family': 'long:%s/%s' % (spacing, shape), 'P': [[u, v] for u, v in zip(xs, ys)], 'k': 0}
+    P = [[u, v] for u, v in zip(xs, ys)]
+    dup = draw(st.sampled_from([0, 0, 97, 1000]))
+    if dup:          # a sample logged twice in a row: still x-sorted, the copy lies on the chain
+        P = [q for i, q in enumerate(P) for _ in range(2 if i % dup == dup // 2 else 1)]
+    return {'kind': 'chain', 'family': 'long:%s/%s%s' % (spacing, shape, '/dup' if dup else ''), 'P': P, 'k': 0}
 
 
 SUBS = [
